@@ -412,6 +412,9 @@ pub struct World<'a> {
     /// the backend is a full service instance: a panic would kill one of its threads, shapes known to
     /// panic are not sent
     pub service: bool,
+    /// name given to the mutations: changes after a model update (the service caches parsed
+    /// mutations by text and does not drop them when the model changes)
+    pub mutation_name: &'static str,
 }
 
 fn fld_ty<'a>(plan: &'a Plan, name: &str) -> Option<Ty> {
@@ -453,7 +456,7 @@ impl<'a> World<'a> {
         o: &mut Outcome,
     ) -> Result<(Option<String>, Option<Val>, bool, bool), ()> {
         let n = &self.names;
-        let mut text = format!("mutate {{ T {{ tag: ${} ", n.n("tg"));
+        let mut text = format!("mutate {} {{ T {{ tag: ${} ", self.mutation_name, n.n("tg"));
         let mut params: Vec<(String, P)> = vec![(n.n("tg"), P::S(tag.to_string()))];
         for ty in Ty::ALL {
             let f = format!("{}_r", ty.prefix());
@@ -955,7 +958,7 @@ impl<'a> World<'a> {
                 // old row: the default is spliced as a positional SQL literal and compared with the value
                 let sql = format!("SELECT {} = ?2 OR ?1 IS NULL", format!("{}", stored));
                 self.be.diag_bool(&sql, &doc, p)
-            } else if form.contains("literal") {
+            } else if form_class(form) == "literal" {
                 let sql = format!("SELECT (?1 ->> '$.a') = {} OR ?2 IS NULL", format!("{}", p));
                 self.be.diag_bool(&sql, &doc, p)
             } else {
@@ -996,6 +999,28 @@ impl<'a> World<'a> {
             probes.push(Val::Null);
         }
         let var = self.names.n("v");
+        // ---- form E: filter on a path inside a Json field (`j_r->$.a[1]` holds the string b'" in every row) ----
+        if field != "j_r" {
+            let inner = "b'\"".to_string();
+            let (all, dc) = self.tags_where(|_, _| Some(true));
+            let all: BTreeSet<String> = all.into_iter().chain(dc.into_iter()).collect();
+            let none = BTreeSet::new();
+            let q = format!("query {{ T(order_by(tag asc), j_r->$.a[1] = ${}) {{ tag }} }}", var);
+            let got = self.run_tag_query(&q, &[(var.as_str(), P::S(inner.clone()))], "T");
+            o.label("pos:json-path-filter-parameter");
+            self.judge_set("json-path-filter", "parameter", &Val::S(inner.clone()), got, &all, &none, None, &FilterCtx { literals_before: vec![] }, Some(&var), &q, o);
+            let q = format!("query {{ T(order_by(tag asc), j_r->$.a[1] = {}) {{ tag }} }}", string_literal(&inner, 0));
+            let got = self.run_tag_query(&q, &[], "T");
+            o.label("pos:json-path-filter-literal");
+            self.judge_set("json-path-filter", "literal", &Val::S(inner.clone()), got, &all, &none, None, &FilterCtx { literals_before: vec![] }, None, &q, o);
+            // a string probe of the case against the same path
+            if let Some(Val::S(ps)) = probes.iter().find(|p| matches!(p, Val::S(_))) {
+                let exp = if *ps == inner { all.clone() } else { BTreeSet::new() };
+                let q = format!("query {{ T(order_by(tag asc), j_r->$.a[1] = ${}) {{ tag }} }}", var);
+                let got = self.run_tag_query(&q, &[(var.as_str(), P::S(ps.clone()))], "T");
+                self.judge_set("json-path-filter", "parameter", &Val::S(ps.clone()), got, &exp, &none, None, &FilterCtx { literals_before: vec![] }, Some(&var), &q, o);
+            }
+        }
         for p in probes {
             // ---- `field = null` (literal only; a null parameter has no defined meaning with `=`) ----
             if p == Val::Null {
@@ -1344,7 +1369,7 @@ impl<'a> World<'a> {
 }
 
 fn form_class(form: &str) -> &str {
-    if form.contains("literal") && !form.contains("after-literal") {
+    if form.contains("literal") && form != "parameter-after-literal" {
         "literal"
     } else {
         "parameter"
@@ -1454,6 +1479,7 @@ pub fn run_steps(
             classify_model_failure(w, &f, "model-update", o);
             return;
         }
+        w.mutation_name = "m2";
         o.label("pos:default-added-by-model-update");
     }
     let with_late = case.variant == Variant::Late;
@@ -1578,7 +1604,7 @@ pub fn run_inmem(case: &Case, o: &mut Outcome) {
     let plan = Plan::new(case, false);
     // the model goes first; it carries the default literal
     if let Err(f) = db.update_model(&plan.model_v1) {
-        let w = World { be: &db, case, plan, names: Names::new(case.avoid_known), rows: vec![], via: "", service: false };
+        let w = World { be: &db, case, plan, names: Names::new(case.avoid_known), rows: vec![], via: "", service: false, mutation_name: "m1" };
         classify_model_failure(&w, &f, "model", o);
         return;
     }
@@ -1602,7 +1628,7 @@ pub fn run_inmem(case: &Case, o: &mut Outcome) {
         }
     }
     let shared = Shared(&cell);
-    let mut w = World { be: &shared, case, plan, names: Names::new(case.avoid_known), rows: vec![], via: "", service: false };
+    let mut w = World { be: &shared, case, plan, names: Names::new(case.avoid_known), rows: vec![], via: "", service: false, mutation_name: "m1" };
     let mut hook = |v2: &str| -> Result<(), Fail> { cell.borrow_mut().update_model(v2) };
     run_steps(&mut w, o, &mut hook, true);
     // the rest of the database
@@ -1670,9 +1696,15 @@ pub fn run_service(case: &Case, dir: std::path::PathBuf, o: &mut Outcome) {
         return;
     }
     {
-        let mut w = World { be: &svc, case, plan, names: Names::new(case.avoid_known), rows: vec![], via: "", service: true };
+        let mut w = World { be: &svc, case, plan, names: Names::new(case.avoid_known), rows: vec![], via: "", service: true, mutation_name: "m1" };
         let mut hook = |v2: &str| -> Result<(), Fail> {
-            svc.rt.block_on(svc.peer.db.update_data_model(v2)).map(|_| ()).map_err(crate::db::classify)
+            // update_data_model drops the error of the update and returns the current model: look at it
+            let model = svc.rt.block_on(svc.peer.db.update_data_model(v2)).map_err(crate::db::classify)?;
+            if model.contains("late") {
+                Ok(())
+            } else {
+                Err(Fail::Parse("the model update was not applied (its error is not returned by update_data_model)".into()))
+            }
         };
         run_steps(&mut w, o, &mut hook, true);
     }
